@@ -9,6 +9,7 @@ import (
 	"hash/fnv"
 	"os"
 	"sort"
+	"strings"
 	"sync"
 	"testing"
 )
@@ -127,6 +128,9 @@ func Main(m *testing.M) {
 func Try(f func()) (p interface{}, stack string) {
 	defer func() {
 		if r := recover(); r != nil {
+			if strings.HasPrefix(fmt.Sprintf("%T", r), "rapid.") {
+				panic(r) // rapid's own control flow (invalid data / stop test), not the library's
+			}
 			p = r
 			stack = shortStack()
 		}
